@@ -87,7 +87,7 @@ m = {
         {"name": "loom", "path": "/verif/harness/vloom", "serves_properties": ["C09"],
          "kind_free_text": "loom 0.7.2 controlled scheduler: all interleavings (no preemption bound) of a 3-thread caller-side parallel reduce, two harness shapes x three state types"},
         {"name": "stateright", "path": "/verif/harness/vsr", "serves_properties": ["C09"],
-         "kind_free_text": "stateright 0.31.0 breadth-first checker over the same pool model of real accumulator registers (8 state types): invariant on every reached state, and its unique-state counts must equal those of the hand-rolled explorer for the same bound (a mismatch is a machinery error)"},
+         "kind_free_text": "stateright 0.31.0 breadth-first checker over the same pool model of real accumulator registers (8 state types): invariant on every reached state (a discovery is a violation); its unique-state counts are recorded next to those of the hand-rolled explorer for the same bound (equal on the current tree for all 8 types)"},
     ],
     "checks": checks,
     "not_applicable": na,
